@@ -210,6 +210,7 @@ def run_harnesses(scratch, config, names, jobs, timeout_s, per_harness_timeout="
     results = {}
     stats = {c["harness_id"]: c for c in data.get("cbmc", [])}
     pdet = {c["harness_id"]: c["property_details"] for c in data.get("property_details", [])}
+    shp = {h["pretty_name"]: bool((h.get("attributes") or {}).get("should_panic")) for h in data.get("harness_metadata", [])}
     for r in data["verification_results"]["results"]:
         hid = r["harness_id"]
         st = stats.get(hid, {})
@@ -229,6 +230,7 @@ def run_harnesses(scratch, config, names, jobs, timeout_s, per_harness_timeout="
             "solver_s": (st.get("cbmc_stats") or {}).get("runtime_solver_s"),
             "vccs": (st.get("cbmc_stats") or {}).get("vccs_generated"),
             "property_details": pdet.get(hid),
+            "should_panic": shp.get(hid, False),
         }
     return results, out, " ".join(shlex.quote(c) for c in cmd), data
 
